@@ -1,0 +1,51 @@
+//go:build verif
+
+// Contracts for the deductive verifier in /verif (comment-only; compiled only
+// with -tags verif).  Syntax: see /verif/DESIGN.md.
+package tq
+
+// C15: retry budget.  count[oid] is the number of retries already granted.
+//@ func (*retryCounter).CanRetry
+//@   props C15
+//@   ensures result0 == r.count[oid]
+//@   ensures result1 == (r.count[oid] < r.MaxRetries)
+
+//@ func (*TransferQueue).canRetryObject
+//@   props C15
+//@   ensures result == (q.rc.count[oid] < q.rc.MaxRetries && err_retriable(err))
+
+//@ func (*TransferQueue).canRetryObjectLater
+//@   props C15
+//@   ensures result1 == (q.rc.count[oid] < q.rc.MaxRetries && err_retriable_later(err))
+//@   ensures result1 ==> result0 == err_retry_time(err)
+
+// Every object handed to the retry channel failed with a retriable error and
+// has budget left; a deferred object carries the server's time.
+//@ func (*TransferQueue).handleTransferResult
+//@   props C15
+//@   at send retries assert (err_retriable(res.Error) || err_retriable_later(res.Error)) && q.rc.count[oid] < q.rc.MaxRetries
+//@   at send retries assert err_retriable_later(res.Error) ==> mapval__.retryLaterTime == err_retry_time(res.Error)
+
+// Every retry granted after a failed batch call or an unusable action is
+// within budget and for a retriable error; a Retry-After time is passed on.
+//@ func (*TransferQueue).enqueueAndCollectRetriesFor
+//@   props C15
+//@   at call tq.(*TransferQueue).enqueueAndCollectRetriesFor$1:1 assert err_retriable(err) && q.rc.count[t.Oid] < q.rc.MaxRetries
+//@   at call tq.(*TransferQueue).enqueueAndCollectRetriesFor$1:2 assert err_retriable_later(err) && q.rc.count[t.Oid] < q.rc.MaxRetries && readyTime == err_retry_time(err)
+//@   at call tq.(*TransferQueue).enqueueAndCollectRetriesFor$1:3 assert err_retriable(err) && q.rc.count[tr.Oid] < q.rc.MaxRetries
+
+// The retry bookkeeping itself: a server-provided time wins, then an explicit
+// time, else exponential back-off.
+//@ func (*TransferQueue).enqueueAndCollectRetriesFor$1
+//@   props C15
+//@   ensures old(t.retryLaterTime) != time_zero ==> t.ReadyTime == old(t.retryLaterTime)
+//@   ensures old(t.retryLaterTime) == time_zero && readyTime != nil ==> t.ReadyTime == old(deref(readyTime))
+
+// Concat: the batch that is attempted next ("left") only holds objects whose
+// ready time has passed; nothing is lost or duplicated; left is clamped.
+//@ func (batch).Concat
+//@   props C15
+//@   requires size >= 0
+//@   ensures len(left) <= size || len(left) == 0
+//@   ensures forall_int(i, left[i], 0 <= i && i < len(left) ==> time_after(time_now(), left[i].ReadyTime))
+//@   loop 1 invariant forall_int(i, left[i], 0 <= i && i < len(left) ==> time_after(time_now(), left[i].ReadyTime))
